@@ -895,18 +895,24 @@ time_zone::civil_lookup TimeZoneInfo::TimeLocal(const civil_second& cs,
                                                 year_t c4_shift) const {
   assert(last_year_ - 400 <= cs.year() && cs.year() < last_year_);
   time_zone::civil_lookup cl = MakeTime(cs);
-  if (c4_shift > seconds::max().count() / kSecsPer400Years) {
-    cl.pre = cl.trans = cl.post = time_point<seconds>::max();
-  } else {
-    const auto offset = seconds(c4_shift * kSecsPer400Years);
-    const auto limit = time_point<seconds>::max() - offset;
+  // Apply the shift in steps that are each representable as seconds. The
+  // total (c4_shift * kSecsPer400Years) need not be, even though the result
+  // is, when the unshifted times are before the epoch.
+  const year_t max_shift = seconds::max().count() / kSecsPer400Years;
+  const auto tp_max = time_point<seconds>::max();
+  while (c4_shift > 0) {
+    if (cl.pre == tp_max && cl.trans == tp_max && cl.post == tp_max) break;
+    const year_t n = std::min(c4_shift, max_shift);
+    const auto offset = seconds(n * kSecsPer400Years);
+    const auto limit = tp_max - offset;
     for (auto* tp : {&cl.pre, &cl.trans, &cl.post}) {
       if (*tp > limit) {
-        *tp = time_point<seconds>::max();
+        *tp = tp_max;
       } else {
         *tp += offset;
       }
     }
+    c4_shift -= n;
   }
   return cl;
 }
